@@ -28,6 +28,11 @@ def targets(private_allowed):
         ("connect-unresolvable", 1, b"nonexistent.invalid:80", b"", 2),
         ("connect-private", 1, b"10.1.2.3:80", b"", 1 if private_allowed else 3),
         ("connect-cgnat", 1, b"100.64.0.1:443", b"", 1 if private_allowed else 3),
+        # the kernel answers a TCP connect to a multicast / broadcast address with ENETUNREACH at once (a multicast address is
+        # not on net_utils' list of non-routable ranges, so the attempt is made whatever the egress policy; broadcast is on it)
+        ("connect-net-unreachable", 1, b"224.0.0.1:80", b"", 6),
+        ("connect-broadcast-unreachable", 1, b"255.255.255.255:80", b"", 6 if private_allowed else 3),
+        ("get-net-unreachable", 6, b"http://224.0.0.1/x", b"", 6),
         ("connect-no-port", 1, b"localhost", b"", 0),
         ("check", 1, b"_check", b"", 0), ("udp", 1, b"_udp2", dgram(), 0), ("icmp", 1, b"_icmp", b"", 0),
         ("upper-case", 1, b"_CHECK", b"", 0), ("reserved-with-port", 1, b"_check:0", b"", 2), ("reserved-suffix", 1, b"_udp2x:80", b"", 2),
